@@ -4,13 +4,14 @@ from vlib import core
 
 THEOREMS = ["Props.C14." + t for t in [
     "queries_match_paths", "order_independent", "error_iff", "json_roundtrip",
-    "no_panic_partial", "no_panic_repaired", "getpath_terminates_partial"]]
+    "no_panic_partial", "no_panic_repaired", "getpath_terminates_partial", "getpath_terminates_repaired"]]
 
 DOCUMENTED = {
     "panic:head-negative-index", "panic:atoi-overflow", "panic:int32-overflow", "panic:err-token", "panic:str-slice-oob",
     "panic:getpath-star-nil-field", "panic:field-nil-fdmask", "panic:foreach-nil-fdmask", "panic:foreach-invalid-type",
     "hang:getpath-backslash-under-all", "sel:black-terminal-star", "pim:black-terminal-star", "pim:typedef-not-unwrapped",
     "pim:struct-star-takes-first-field-type", "json:star-key-becomes-wildcard", "json:quote-not-json", "json:empty-mask-rejected",
+    "json:non-utf8-key-replaced",
 }
 
 PARTIAL = [
